@@ -15,7 +15,7 @@ RUNS = {"quick": 1500, "thorough": 30000}
 CHUNK = {"quick": 20, "thorough": 100}
 PROBES = ["read_after_modification", "stale_cache_opportunity", "nested_modification_via_tree", "variant_block", "default_variant",
           "data_transform_list", "execute_list", "beacon_gate_list", "repeated_option", "repeated_block", "kwargs_style",
-          "calls_style", "reparse", "empty_block", "pair_statement"]
+          "calls_style", "reparse", "empty_block", "pair_statement", "same_text_parsed_twice"]
 RULE = ("seeded histories (2-24 ops) on one C2Profile: 'add' ops append a global option or a fully built block (all 11 "
         "block kinds, options by alias/keyword table, header/parameter/strrep pairs, data-transform lists in the six "
         "non-variant list paths, execute and BeaconGate lists, process-inject transform-x86) built either through kwargs "
@@ -470,6 +470,26 @@ def execute(plan: dict) -> Result:
             res.violate(("C11", "parsed", "dict_differs", _diff_kind(got, want), "variant" if any(len(it) > 3 for it in items) else "plain"),
                         f"as_dict() of parsed text differs from the profile: {_diff(got, want)}\n{text[:500]}")
         _roundtrip(cp, res, prof, "parsed")
+        # history across objects: modify this profile, then parse the SAME text again - the new profile must not see it
+        try:
+            prof.set_option("sleeptime", "31337")
+            if prof.tree.children and hasattr(prof.tree.children[0], "children"):
+                from lark import Token, Tree
+                prof.tree.children[0].children.append(Tree("jitter_not_a_rule", [Tree("string", [Token("STRING", '"x"')])]))
+                prof.tree.children[0].children.pop()
+            again = cp.C2Profile.from_text(text)
+            got2 = _plain(again.as_dict())
+            res.probes["same_text_parsed_twice"] += 1
+            if got2 != want:
+                res.violate(("C11", "parsed", "second_parse_sees_first_profiles_changes"),
+                            f"a second from_text() of the same text is affected by modifications of the first profile: {_diff(got2, want)}")
+            want2 = dict(want)
+            want2["sleeptime"] = want.get("sleeptime", []) + ["31337"]
+            if _plain(prof.as_dict()) != want2:
+                res.violate(("C11", "parsed", "modification_not_tracked"),
+                            f"as_dict() of a parsed profile does not track set_option(): {_diff(_plain(prof.as_dict()), want2)}")
+        except Exception as e:
+            res.violate(("C11", "parsed", "exception", type(e).__name__), f"second parse / modification raised {e!r}")
         return res
     # ---------------- history population
     style = plan["style"]
